@@ -886,7 +886,7 @@ pub fn start_watchdog(property: String, root: PathBuf) {
                 }
                 std::thread::sleep(Duration::from_millis(200));
             };
-            if !finished && (property == "C05" || property == "C14") {
+            if !finished && (property == "C05" || property == "C14" || property == "C16") {
                 println!("VIOLATION property={} replay={}", property, path.display());
                 println!("  check={} the case does not terminate (watchdog {} s, isolated re-run {} s)", check, limit, 2 * limit);
                 std::process::exit(1);
